@@ -304,6 +304,11 @@ class Scheduler:
         self.pos: List[Tuple] = [("start", 0)] * n  # last site per thread
         self._el_cache: Optional[List[int]] = None
         self._el_valid_until: float = 0
+        self.fair_run = 100_000
+        self.fair_quantum = 30_000
+        self._benched: Dict[int, int] = {}
+        self._run_len = 0
+        self.forced_switches = 0
 
     # -- identification ------------------------------------------------------------------
     def thread_index(self) -> Optional[int]:
@@ -422,6 +427,25 @@ class Scheduler:
         if el is None or steps >= self._el_valid_until:
             el = self._eligible()
         nxt = self.policy.choose(steps, me, el)
+        # fairness bound: no thread runs more than `fair_run` consecutive steps while others are
+        # runnable (real schedulers pre-empt; without this a spin-wait would look like a livelock)
+        if self._benched:
+            # a thread that exhausted its time slice sits out for one quantum (if anybody else can run)
+            self._benched = {t: u for t, u in self._benched.items() if u > steps}
+            if nxt in self._benched:
+                free = [t for t in el if t not in self._benched]
+                if free:
+                    nxt = me if me in free else free[steps % len(free)]
+        if nxt == me:
+            self._run_len += 1
+            if self._run_len > self.fair_run and len(el) > 1:
+                others = [t for t in el if t != me and t not in self._benched] or [t for t in el if t != me]
+                nxt = others[(steps // self.fair_run) % len(others)]
+                self._benched[me] = steps + self.fair_quantum
+                self._run_len = 0
+                self.forced_switches += 1
+        else:
+            self._run_len = 0
         d = self.decisions
         if d and d[-1][0] == nxt:
             d[-1][1] += 1
